@@ -94,6 +94,11 @@ class AbstractChunk(ABC):
         # Begin with a thorough inspection of the dataset
         data = utils.check_data_consistency(data, req_cols=self.DATA_COLS)
 
+        # The index labels of the user data carry no meaning (and may not be unique, e.g. after a
+        # pd.concat of per-ceilometer DataFrames). All the label-based selections below rely on
+        # unique labels: use a clean RangeIndex.
+        data = data.reset_index(drop=True)
+
         # By default we set this flag to false and overwrite if enough hits are present
         self._clouds_above_msa_buffer = False
 
